@@ -67,7 +67,8 @@ pub fn run_case(ctx: &mut CaseCtx) -> CaseResult {
     for _ in 0..nops {
         match rng.below(12) {
             0 if !cfg.wmode.is_async() => ops.push(HOp::Flush),
-            1 if !cfg.wmode.is_async() && rng.chance(1, 3) => ops.push(HOp::Trigger),
+            // (explicit rotations are ordered with the queued records in async mode, too)
+            1 if rng.chance(1, 3) => ops.push(HOp::Trigger),
             2 if !cfg.wmode.is_async() && rng.chance(1, 4) => ops.push(HOp::Reopen),
             _ => {
                 let ll = *rng.pick(&line_lens);
